@@ -8,31 +8,55 @@ Three parties run the same generated history (commands in rank/token space):
             (the driver prints SPECDIFF when they differ, `chk` compares `abs concrete = spec`).
 REAL != ORACLE is a violation of the property (failing input = the history);  REAL != MODEL breaks the correspondence.
 """
+import collections
 import copy
 import itertools
 import signal
 import warnings
+import zlib
 from fractions import Fraction
+
+import numpy as np
 
 import hgxv
 
 RULE = ("random histories of 1-40 public calls on 2 Hypergraph slots (+1 scratch slot for constructor calls) over a universe "
-        "of 3-6 labels (ints, shifted/negative ints, strings), hyperedge sizes 0-4 drawn mostly from a pool of 4-6 favourite "
-        "node sets given in permuted node order, weights k/4, metadata over 4 attribute names; ~12% malformed calls "
-        "(missing node/hyperedge/attribute, weight on unweighted, short weight/metadata lists, repeated members in batches, "
-        "order and size together); after every call a sampled set of queries on the touched slot, after every rejected call "
-        "the full observable state against the state before, at the end of a history every query with every filter "
-        "order in -1..4 / size in 0..5 / up_to; thorough adds all histories of length <= 3 (unweighted; <= 2 weighted) over a "
+        "of 3-6 mutually comparable labels of one of 12 kinds (small / shifted / negative ints, ints beyond the small-int cache "
+        "up to 10**30 incl. hash-colliding pairs, mixed int/float incl. +-inf, short strings, odd strings incl. '', strings "
+        "built at run time, tuple labels of mixed length, (str, int) tuples, nested tuples), hyperedge sizes 0-4 drawn mostly "
+        "from a pool of 4-6 favourite node sets given in permuted node order, weights k/4, metadata over 4 attribute names; "
+        "every call is WRITTEN anew (presentation, derived from the case's `pres` seed and the call): each label is a freshly "
+        "constructed equal object (int(str(x)), float / numpy.int64 / bool where exactly equal, re-joined strings, rebuilt "
+        "tuples), hyperedges / node lists / hyperedge lists / weight lists / metadata lists come as tuple, list, set, frozenset, "
+        "range, iterator, generator, dict, dict keys, numpy array, deque, str (where the callee can take them), optional "
+        "arguments are left out / given as None or False / given by keyword / given by position; ~12% malformed calls (a "
+        "quarter of the batched removals) (missing node/hyperedge/attribute, weight on unweighted, short weight/metadata "
+        "lists, repeated members in batches - also spelled in another node order -, order and size together); after every "
+        "call the caller overwrites every container he handed in, and the touched slot is asked a sampled set of queries "
+        "(after a rejected call: the whole unfiltered observable state); every container a query returns is overwritten by "
+        "the caller once its answer is read (4% are kept across the next mutating call first and must read the same then) "
+        "and a digest of queries is asked again; at the end of a history every query with every filter order in -1..4 / "
+        "size in 0..5 / up_to; thorough adds all histories of length <= 3 (unweighted; <= 2 weighted) over a "
         "26-call alphabet on 3 nodes with the boundary filters at the end. "
         "A history is distinct by its canonical command text and non-trivial when it has >= 1 accepted removal and >= 1 "
         "insertion of a hyperedge that is or was present")
-ASSUMPTIONS = ["hyperedges are given as duplicate-free node tuples (the quantifier says node sets)",
-               "node labels are mutually comparable and hashable; they reach the model as their rank in the label universe",
-               "weights are multiples of 1/4 (float + is exact), metadata dicts are never shared between calls (deep copies)",
+ASSUMPTIONS = ["hyperedges are given as duplicate-free node collections (the quantifier says node sets)",
+               "node labels are mutually comparable and hashable; they reach the model as their rank in the label universe; "
+               "equal objects of different type (1, 1.0, True, numpy.int64(1); 'a', numpy.str_('a')) are ONE label, as for a "
+               "Python dict; numpy scalars are used only where numpy compares them exactly (|x| <= 2**53); NaN is no label",
+               "weights are multiples of 1/4 (float + is exact); weight and metadata lists are sequences (list, tuple, numpy "
+               "array, deque - the code indexes them); with weights the hyperedges of one batch are hashable and of one type "
+               "(tuple, frozenset or range - the code builds set(edge_list)); the constructor gets sized hyperedge lists "
+               "when it is weighted with weights (it takes len)",
+               "metadata dictionaries are stored and returned BY REFERENCE (design of the library, see C07): the caller passes a "
+               "fresh dictionary per call and never mutates it afterwards, nor a dictionary returned by get_*_metadata / "
+               "get_all_*_metadata / get_hypergraph_metadata / inside get_nodes(metadata=True) / get_edges(metadata=True); every "
+               "OTHER container handed in or returned is the caller's and he overwrites it",
                "a call is 'rejected' when it raises any exception; exception classes are not compared"]
 TRUSTED = ["harness/c01.py PySpec: the abstract hypergraph used as the property oracle (60 lines of dict code)",
-           "label genericity: the same abstract history gives the same answers for int, shifted int and string labels "
-           "(exercised: each history draws one of the label kinds, the model only sees ranks)"]
+           "label genericity: the same abstract history gives the same answers whatever the labels are "
+           "(exercised: each history draws one of 12 label kinds and every call re-creates its label objects; the model only "
+           "sees ranks)"]
 BUDGET_S = {"quick": 75, "thorough": 1300}
 
 KEYS = ["weighted", "type", "color", "since"]          # attribute tokens 0..3
@@ -340,38 +364,368 @@ class PySpec:
 
 
 # ------------------------------------------------------------------------------------------------
+# presentation: HOW the caller writes a call.  The abstract history fixes WHAT is called (ranks, tokens, quanta); the
+# presentation picks, per call and deterministically from (case["pres"], step, text of the call), the label OBJECTS
+# (a freshly constructed object equal to the label: int(str(x)), float(x), numpy scalars, bool for 0/1, re-joined strings,
+# rebuilt tuples), the CONTAINER types of hyperedges / node lists / hyperedge lists / weight lists / metadata lists, and
+# the calling style (optional arguments left out, given as None / False, given by position or by keyword).
+
+class Mini:
+    """tiny deterministic stream (cheap to seed: one per call, so that a replay asks every call the same way)"""
+    M = (1 << 64) - 1
+
+    def __init__(self, seed, text):
+        self.s = ((zlib.crc32(text.encode()) << 21) ^ (int(seed) * 0x9E3779B97F4A7C15) ^ 0x5851F42D4C957F2D) & self.M
+        self.random()
+        self.random()
+
+    def random(self):
+        self.s = (self.s * 6364136223846793005 + 1442695040888963407) & self.M
+        return (self.s >> 11) / 9007199254740992.0
+
+    def randrange(self, n):
+        return int(self.random() * n)
+
+    def choice(self, xs):
+        return xs[int(self.random() * len(xs))]
+
+
+class Pres:
+    def __init__(self, seed, step, text):
+        self.plain = seed is None
+        self.r = Mini(seed or 0, f"{step}|{text}")
+        self.handed = []          # mutable containers built by the harness and handed to the call
+
+    def give(self, x):
+        self.handed.append(x)
+        return x
+
+
+def enc_label(x):
+    """labels in a stored case (JSON): ints and strings as they are, floats by repr, tuples tagged"""
+    if isinstance(x, tuple):
+        return {"t": [enc_label(y) for y in x]}
+    if isinstance(x, float):
+        return {"f": repr(x)}
+    return x
+
+
+def dec_label(j):
+    if isinstance(j, dict):
+        if "f" in j:
+            return float(j["f"])
+        return tuple(dec_label(y) for y in j["t"])
+    if isinstance(j, list):
+        return tuple(dec_label(y) for y in j)
+    return j
+
+
+def fresh(x, r):
+    """an object equal to x (same hash) that is constructed now - never the object stored in the hypergraph"""
+    if isinstance(x, tuple):
+        return tuple([fresh(y, r) for y in x])
+    if isinstance(x, str):
+        y = "".join(list(x))
+        return np.str_(y) if r.random() < 0.06 else y
+    if isinstance(x, bool):
+        return x
+    if isinstance(x, int):
+        c = r.random()
+        if c < 0.5:
+            return int(str(x))
+        if c < 0.72:
+            try:
+                f = float(x)
+                if int(f) == x:
+                    return f
+            except OverflowError:
+                pass
+        elif c < 0.9:
+            if abs(x) <= 2 ** 53:         # beyond, numpy compares an int64 with a float after rounding: not an equal object
+                return np.int64(x)
+        elif c < 0.96:
+            if x in (0, 1):
+                return bool(x)
+        return int(str(x))
+    if isinstance(x, float):
+        return np.float64(x) if r.random() < 0.25 else float(repr(x))
+    return x
+
+
+def as_range(base):
+    """range object listing exactly the int labels `base` in this order, or None"""
+    if not all(type(x) is int for x in base):
+        return None
+    if len(base) == 0:
+        return range(0)
+    if len(base) == 1:
+        return range(base[0], base[0] + 1)
+    d = base[1] - base[0]
+    if d == 0 or any(base[j + 1] - base[j] != d for j in range(len(base) - 1)):
+        return None
+    return range(base[0], base[-1] + (1 if d > 0 else -1), d)
+
+
+def as_array(objs):
+    """1-d numpy array whose elements are equal (and hash-equal) to the given labels, or None"""
+    try:
+        if any(isinstance(x, int) and abs(x) > 2 ** 53 for x in objs):
+            return None
+        with warnings.catch_warnings():
+            warnings.simplefilter("ignore")
+            a = np.array(list(objs))
+        if a.ndim != 1 or a.dtype == object or len(a) != len(objs):
+            return None
+        for u, v in zip(a, objs):
+            if not (u == v and hash(u) == hash(v)):
+                return None
+        return a
+    except Exception:
+        return None
+
+
+def scribble(x, junk):
+    """what a caller may do with a container that is HIS: empty it and put something else in"""
+    try:
+        if isinstance(x, list):
+            x.clear()
+            x.append(junk)
+        elif isinstance(x, (set, collections.deque)):
+            x.clear()
+            (x.add if isinstance(x, set) else x.append)(junk)
+        elif isinstance(x, dict):
+            x.clear()
+            x[junk] = junk
+        elif isinstance(x, np.ndarray):
+            if x.size:
+                x[...] = x.flat[0]
+                if x.dtype.kind in "iuf":
+                    x += 977
+    except Exception:
+        pass
+
+
+ONCE = ["tuple"] * 5 + ["list"] * 4 + ["set", "set", "frozenset", "frozenset", "range", "range", "np", "np", "iter", "iter", "gen", "gen",
+                                        "dictkeys", "dict", "str", "deque"]
+TWICE = [k for k in ONCE if k not in ("iter", "gen")]
+OUTER = ["list"] * 5 + ["tuple"] * 3 + ["iter", "iter", "gen", "gen", "dictkeys", "set", "frozenset", "np", "deque"]
+POS = {"edges": ("order", "size", "up_to"), "edgesmeta": ("order", "size", "up_to"), "numedges": ("order", "size", "up_to"),
+       "weights": ("order", "size", "up_to"), "weightsdict": ("order", "size", "up_to"),
+       "incident": ("order", "size"), "neighbors": ("order", "size"), "degree": ("order", "size"),
+       "degreeseq": ("order", "size"), "degreedist": ("order", "size"),
+       "isolated": ("size", "order"), "isisolated": ("size", "order")}        # positional parameter order of the METHODS
+
+
+# ------------------------------------------------------------------------------------------------
 # the real objects
 
 class Real:
     """one history's label universe + the slots of real Hypergraph objects"""
 
-    def __init__(self, labels):
+    def __init__(self, labels, pres=None):
         from hypergraphx import Hypergraph
         self.H = Hypergraph
         self.labels = list(labels)                      # rank -> label
         self.rank = {x: i for i, x in enumerate(self.labels)}
+        self.pres = pres
+        self.held = []
+        self.chars = all(isinstance(x, str) and len(x) == 1 for x in self.labels)
+        flat = []
+        for x in self.labels:
+            flat += list(x) if isinstance(x, tuple) else [x]
+        while any(isinstance(x, tuple) for x in flat):
+            flat = [z for x in flat for z in (x if isinstance(x, tuple) else [x])]
+        if all(isinstance(x, str) for x in self.labels):
+            self.junk = "~not a label~"
+        elif all(isinstance(x, tuple) for x in self.labels):
+            self.junk = ("~",) if any(isinstance(x, str) for x in flat) else (987654321, 1)
+        else:
+            self.junk = 987654321
         with warnings.catch_warnings():
             warnings.simplefilter("ignore")
             self.slots = [Hypergraph() for _ in range(NSLOT)]
 
-    # conversions model space -> python
-    def lab(self, n):
-        return self.labels[n]
+    def P(self, step, text):
+        return Pres(self.pres, step, text)
 
-    def edge(self, e):
-        return tuple(self.labels[n] for n in e)
+    # conversions model space -> python
+    def lab(self, n, P):
+        return self.labels[n] if P.plain else fresh(self.labels[n], P.r)
+
+    def edge(self, e, P, ctx="once", kind=None):
+        """the hyperedge with the ranks e as a python object; ctx: once (iterated once by the callee) | twice"""
+        objs = [self.lab(n, P) for n in e]
+        if P.plain:
+            return tuple(objs)
+        kind = kind or P.r.choice(ONCE if ctx == "once" else TWICE)
+        return self._container(kind, objs, [self.labels[n] for n in e], P)
+
+    def _container(self, kind, objs, base, P):
+        if kind == "list":
+            return P.give(list(objs))
+        if kind == "set":
+            return P.give(set(objs))
+        if kind == "frozenset":
+            return frozenset(objs)
+        if kind == "range":
+            r = as_range(base)
+            return r if r is not None else P.give(list(objs))
+        if kind == "np":
+            a = as_array(objs)
+            return P.give(a) if a is not None else P.give(list(objs))
+        if kind == "iter":
+            return iter(list(objs))
+        if kind == "gen":
+            return (x for x in list(objs))
+        if kind == "dictkeys":
+            try:
+                return dict.fromkeys(objs).keys()
+            except TypeError:
+                return tuple(objs)
+        if kind == "dict":
+            try:
+                return P.give(dict.fromkeys(objs, "v"))
+            except TypeError:
+                return tuple(objs)
+        if kind == "str":
+            return "".join(base) if (self.chars and len(set(base)) == len(base)) else tuple(objs)
+        if kind == "deque":
+            return P.give(collections.deque(objs))
+        return tuple(objs)
+
+    def nodes(self, ns, P):
+        """(container, ranks in the order the container lists them) for a node list"""
+        objs = [self.lab(n, P) for n in ns]
+        if P.plain:
+            return objs, list(ns)
+        kind = P.r.choice(ONCE)
+        if kind in ("dictkeys", "dict", "str") and len(set(ns)) != len(ns):
+            kind = "list"
+        c = self._container(kind, objs, [self.labels[n] for n in ns], P)
+        if isinstance(c, (set, frozenset)):
+            return c, [self.rank[x] for x in c]
+        return c, list(ns)
+
+    def edges(self, es, P, hashable=False, ordered=False, oneshot=True, ctx="once"):
+        """(container, rank tuples in the order the container lists them) for a list of hyperedges.
+        hashable: the callee builds set(edge_list) - one hashable hyperedge type for the whole batch;
+        ordered: weight / metadata lists are aligned with it"""
+        if P.plain:
+            return [self.edge(e, P) for e in es], list(es)
+        r = P.r
+        outer = r.choice(OUTER)
+        if outer in ("iter", "gen") and not oneshot:
+            outer = "list"
+        if outer in ("set", "frozenset") and ordered:
+            outer = "tuple"
+        if outer == "np" and (hashable or not es or len({len(e) for e in es}) != 1 or len(es[0]) == 0):
+            outer = "list"
+        es = [tuple(e) for e in es]
+        if hashable or outer in ("dictkeys", "set", "frozenset"):
+            kind = r.choice(["tuple", "tuple", "frozenset", "range"])
+            if kind == "range" and any(as_range([self.labels[n] for n in e]) is None for e in es):
+                kind = "tuple"
+            if kind == "frozenset" and hashable:
+                es = [tuple(sorted(e)) for e in es]      # a frozenset has no node order: the call is the call with sorted tuples
+            items = [self.edge(e, P, kind=kind) for e in es]
+        elif outer == "np":
+            rows = [[self.lab(n, P) for n in e] for e in es]
+            try:
+                if any(isinstance(x, int) and abs(x) > 2 ** 53 for row in rows for x in row):
+                    raise ValueError
+                with warnings.catch_warnings():
+                    warnings.simplefilter("ignore")
+                    a = np.array(rows)
+                ok = a.ndim == 2 and a.dtype != object and all(
+                    u == v and hash(u) == hash(v) for ra, rb in zip(a, rows) for u, v in zip(ra, rb))
+            except Exception:
+                ok = False
+            if ok:
+                return P.give(a), es
+            outer, items = "list", [tuple(row) for row in rows]
+        else:
+            items = [self.edge(e, P, ctx=ctx) for e in es]
+        if outer == "list":
+            return P.give(list(items)), es
+        if outer == "tuple":
+            return tuple(items), es
+        if outer == "iter":
+            return iter(list(items)), es
+        if outer == "gen":
+            return (x for x in list(items)), es
+        if outer == "deque":
+            return P.give(collections.deque(items)), es
+        if outer == "dictkeys":
+            d = {}
+            back = {}
+            for it, e in zip(items, es):
+                if it not in d:
+                    d[it] = None
+                    back[len(back)] = e
+            # with aligned lists a collapsed repetition would shift them: keep the list form then
+            if ordered and len(d) != len(items):
+                return P.give(list(items)), es
+            return d.keys(), [back[j] for j in range(len(back))]
+        # set / frozenset of hashable hyperedges: the order is the container's
+        of = {}
+        for it, e in zip(items, es):
+            of.setdefault(it, e)
+        c = set(items) if outer == "set" else frozenset(items)
+        if outer == "set":
+            P.give(c)
+        return c, [of[it] for it in c]
 
     @staticmethod
     def md(m):
         return None if m is None else {KEYS[k]: copy.deepcopy(VALS[v]) for k, v in m.items()}
 
     @staticmethod
-    def wt(q, flip=0):
+    def wt(q, flip=0, P=None):
         if q is None:
             return None
         if q % 4 == 0 and flip % 2 == 0:
-            return q // 4
-        return q / 4
+            w = q // 4
+        else:
+            w = q / 4
+        if P is not None and not P.plain:
+            c = P.r.random()
+            if c < 0.15:
+                return np.float64(w)
+            if c < 0.25 and isinstance(w, int):
+                return np.int64(w)
+            if c < 0.3 and w == 1:
+                return True
+        return w
+
+    def wlist(self, ws, P):
+        vals = [self.wt(w, j, P) for j, w in enumerate(ws)]
+        if P.plain:
+            return vals
+        k = P.r.choice(["list", "list", "list", "tuple", "tuple", "np", "np", "deque"])     # the code indexes it: sequences
+        if k == "tuple":
+            return tuple(vals)
+        if k == "np" and vals:
+            try:
+                a = np.array([float(v) for v in vals]) if P.r.random() < 0.7 else np.array(vals)
+                if a.dtype != object and all(u == v for u, v in zip(a, vals)):
+                    return P.give(a)
+            except Exception:
+                pass
+            return P.give(vals)
+        if k == "deque":
+            return P.give(collections.deque(vals))
+        return P.give(vals)
+
+    def mdlist(self, mds, P):
+        vals = [self.md(m) for m in mds]
+        if P.plain:
+            return vals
+        k = P.r.choice(["list", "list", "list", "tuple", "tuple", "deque"])
+        if k == "tuple":
+            return tuple(vals)
+        if k == "deque":
+            return P.give(collections.deque(vals))
+        return P.give(vals)
 
     # conversions python -> model space (anything unexpected becomes a marker that cannot match)
     def rk(self, x):
@@ -384,7 +738,10 @@ class Real:
         try:
             return tuple(sorted(self.rk(x) for x in e))
         except TypeError:
-            return ("?unsortable",) + tuple(str(self.rk(x)) for x in e)
+            try:
+                return ("?unsortable",) + tuple(str(self.rk(x)) for x in e)
+            except TypeError:
+                return (f"?{e!r}",)
 
     @staticmethod
     def rmd(m):
@@ -406,99 +763,207 @@ class Real:
             return f"?{w!r}"
 
     # commands -------------------------------------------------------------------------------
-    def do(self, i, c):
-        """run one operation tuple on slot i; True = returned, False = raised"""
+    def prepare(self, i, c, P):
+        """(operation as the containers list it, thunk that performs the call on slot i).
+        The operation changes only where a container has no order of its own (set of nodes, set of hyperedges,
+        frozenset hyperedges in a weighted batch): then the call IS the call in the container's order."""
         h = self.slots[i]
+        r = P.r
+        v = 0 if P.plain else r.randrange(4)
         op = c[0]
+        if op == "addnode":
+            n = self.lab(c[1], P)
+            if c[2] is None:
+                return c, [lambda: h.add_node(n), lambda: h.add_node(n, None), lambda: h.add_node(n, metadata=None),
+                           lambda: h.add_node(node=n)][v]
+            m = self.md(c[2])
+            return c, [lambda: h.add_node(n, metadata=m), lambda: h.add_node(n, m), lambda: h.add_node(node=n, metadata=m),
+                       lambda: h.add_node(metadata=m, node=n)][v]
+        if op == "addnodes":
+            ns, order = self.nodes(c[1], P)
+            c = ("addnodes", order, c[2])
+            if c[2] is None:
+                return c, [lambda: h.add_nodes(ns), lambda: h.add_nodes(ns, None), lambda: h.add_nodes(node_list=ns),
+                           lambda: h.add_nodes(ns, metadata=None)][v]
+            m = {self.lab(n, P): self.md(x) for n, x in c[2].items()}
+            if not P.plain:
+                P.give(m)
+            return c, [lambda: h.add_nodes(ns, metadata=m), lambda: h.add_nodes(ns, m),
+                       lambda: h.add_nodes(node_list=ns, metadata=m), lambda: h.add_nodes(ns, metadata=m)][v]
+        if op == "addedge":
+            e = self.edge(c[1], P)
+            w = self.wt(c[2], len(c[1]), P)
+            m = self.md(c[3])
+            if P.plain or v == 0:
+                kw = {}
+                if w is not None:
+                    kw["weight"] = w
+                if m is not None:
+                    kw["metadata"] = m
+                return c, lambda: h.add_edge(e, **kw)
+            if v == 1:
+                return c, lambda: h.add_edge(e, w, m)
+            if v == 2:
+                return c, lambda: h.add_edge(edge=e, weight=w, metadata=m)
+            return c, (lambda: h.add_edge(e, w)) if m is None else (lambda: h.add_edge(e, w, metadata=m))
+        if op == "addedges":
+            es, order = self.edges(c[1], P, hashable=c[2] is not None, ordered=c[2] is not None or c[3] is not None)
+            c = ("addedges", order, c[2], c[3])
+            ws = None if c[2] is None else self.wlist(c[2], P)
+            ms = None if c[3] is None else self.mdlist(c[3], P)
+            if P.plain or v == 0:
+                kw = {}
+                if ws is not None:
+                    kw["weights"] = ws
+                if ms is not None:
+                    kw["metadata"] = ms
+                return c, lambda: h.add_edges(es, **kw)
+            if v == 1:
+                return c, lambda: h.add_edges(es, ws, ms)
+            if v == 2:
+                return c, lambda: h.add_edges(edge_list=es, weights=ws, metadata=ms)
+            return c, lambda: h.add_edges(es, ws, metadata=ms)
+        if op == "rmedge":
+            e = self.edge(c[1], P)
+            return c, (lambda: h.remove_edge(e)) if v < 3 else (lambda: h.remove_edge(edge=e))
+        if op == "rmedges":
+            es, order = self.edges(c[1], P, ctx="twice")
+            c = ("rmedges", order)
+            return c, (lambda: h.remove_edges(es)) if v < 3 else (lambda: h.remove_edges(edge_list=es))
+        if op == "rmnode":
+            n = self.lab(c[1], P)
+            keep = bool(c[2])
+            if keep:
+                return c, [lambda: h.remove_node(n, keep_edges=True), lambda: h.remove_node(n, True),
+                           lambda: h.remove_node(node=n, keep_edges=True), lambda: h.remove_node(n, keep_edges=True)][v]
+            return c, [lambda: h.remove_node(n), lambda: h.remove_node(n, False), lambda: h.remove_node(n, keep_edges=False),
+                       lambda: h.remove_node(node=n)][v]
+        if op == "rmnodes":
+            ns, order = self.nodes(c[1], P)
+            keep = bool(c[2])
+            c = ("rmnodes", order, c[2])
+            if P.plain:
+                return c, lambda: h.remove_nodes(ns, keep_edges=keep)
+            if not keep and v == 0:
+                return c, lambda: h.remove_nodes(ns)
+            return c, [lambda: h.remove_nodes(ns, keep_edges=keep), lambda: h.remove_nodes(ns, keep),
+                       lambda: h.remove_nodes(node_list=ns, keep_edges=keep), lambda: h.remove_nodes(ns, keep_edges=keep)][v]
+        if op == "setw":
+            e = self.edge(c[1], P)
+            w = self.wt(c[2], len(c[1]), P)
+            return c, (lambda: h.set_weight(e, w)) if v < 3 else (lambda: h.set_weight(edge=e, weight=w))
+        if op == "setnmeta":
+            n, m = self.lab(c[1], P), self.md(c[2])
+            return c, (lambda: h.set_node_metadata(n, m)) if v < 3 else (lambda: h.set_node_metadata(node=n, metadata=m))
+        if op == "setemeta":
+            e, m = self.edge(c[1], P), self.md(c[2])
+            return c, (lambda: h.set_edge_metadata(e, m)) if v < 3 else (lambda: h.set_edge_metadata(edge=e, metadata=m))
+        if op == "sethmeta":
+            m = self.md(c[1])
+            return c, lambda: h.set_hypergraph_metadata(m)
+        if op == "attrh":
+            k, x = KEYS[c[1]], copy.deepcopy(VALS[c[2]])
+            return c, lambda: h.set_attr_to_hypergraph_metadata(k, x)
+        if op == "attrn":
+            n, k, x = self.lab(c[1], P), KEYS[c[2]], copy.deepcopy(VALS[c[3]])
+            return c, (lambda: h.set_attr_to_node_metadata(n, k, x)) if v < 3 else \
+                (lambda: h.set_attr_to_node_metadata(node=n, field=k, value=x))
+        if op == "attre":
+            e, k, x = self.edge(c[1], P), KEYS[c[2]], copy.deepcopy(VALS[c[3]])
+            return c, (lambda: h.set_attr_to_edge_metadata(e, k, x)) if v < 3 else \
+                (lambda: h.set_attr_to_edge_metadata(edge=e, field=k, value=x))
+        if op == "delattrn":
+            n, k = self.lab(c[1], P), KEYS[c[2]]
+            return c, lambda: h.remove_attr_from_node_metadata(n, k)
+        if op == "delattre":
+            e, k = self.edge(c[1], P), KEYS[c[2]]
+            return c, lambda: h.remove_attr_from_edge_metadata(e, k)
+        if op == "clear":
+            return c, lambda: h.clear()
+        raise ValueError(op)
+
+    def call(self, thunk, P):
+        """run a prepared call; True = returned, False = raised.  Afterwards the caller re-uses HIS containers."""
         try:
             with warnings.catch_warnings():
                 warnings.simplefilter("ignore")
-                if op == "addnode":
-                    h.add_node(self.lab(c[1])) if c[2] is None else h.add_node(self.lab(c[1]), metadata=self.md(c[2]))
-                elif op == "addnodes":
-                    ns = [self.lab(n) for n in c[1]]
-                    if c[2] is None:
-                        h.add_nodes(ns)
-                    else:
-                        h.add_nodes(ns, metadata={self.lab(n): self.md(m) for n, m in c[2].items()})
-                elif op == "addedge":
-                    kw = {}
-                    if c[2] is not None:
-                        kw["weight"] = self.wt(c[2], len(c[1]))
-                    if c[3] is not None:
-                        kw["metadata"] = self.md(c[3])
-                    h.add_edge(self.edge(c[1]), **kw)
-                elif op == "addedges":
-                    kw = {}
-                    if c[2] is not None:
-                        kw["weights"] = [self.wt(w, j) for j, w in enumerate(c[2])]
-                    if c[3] is not None:
-                        kw["metadata"] = [self.md(m) for m in c[3]]
-                    h.add_edges([self.edge(e) for e in c[1]], **kw)
-                elif op == "rmedge":
-                    h.remove_edge(self.edge(c[1]))
-                elif op == "rmedges":
-                    h.remove_edges([self.edge(e) for e in c[1]])
-                elif op == "rmnode":
-                    h.remove_node(self.lab(c[1]), keep_edges=c[2]) if c[2] else h.remove_node(self.lab(c[1]))
-                elif op == "rmnodes":
-                    h.remove_nodes([self.lab(n) for n in c[1]], keep_edges=c[2])
-                elif op == "setw":
-                    h.set_weight(self.edge(c[1]), self.wt(c[2], len(c[1])))
-                elif op == "setnmeta":
-                    h.set_node_metadata(self.lab(c[1]), self.md(c[2]))
-                elif op == "setemeta":
-                    h.set_edge_metadata(self.edge(c[1]), self.md(c[2]))
-                elif op == "sethmeta":
-                    h.set_hypergraph_metadata(self.md(c[1]))
-                elif op == "attrh":
-                    h.set_attr_to_hypergraph_metadata(KEYS[c[1]], copy.deepcopy(VALS[c[2]]))
-                elif op == "attrn":
-                    h.set_attr_to_node_metadata(self.lab(c[1]), KEYS[c[2]], copy.deepcopy(VALS[c[3]]))
-                elif op == "attre":
-                    h.set_attr_to_edge_metadata(self.edge(c[1]), KEYS[c[2]], copy.deepcopy(VALS[c[3]]))
-                elif op == "delattrn":
-                    h.remove_attr_from_node_metadata(self.lab(c[1]), KEYS[c[2]])
-                elif op == "delattre":
-                    h.remove_attr_from_edge_metadata(self.edge(c[1]), KEYS[c[2]])
-                elif op == "clear":
-                    h.clear()
+                thunk()
+            ok = True
+        except AlarmTimeout:
+            raise
+        except Exception:
+            ok = False
+        for x in P.handed:
+            scribble(x, self.junk)
+        return ok
+
+    def do(self, i, c, P=None):
+        P = P or Pres(None, 0, "")
+        c2, thunk = self.prepare(i, c, P)
+        return self.call(thunk, P)
+
+    def new(self, i, weighted, hm, P=None):
+        P = P or Pres(None, 0, "")
+        v = 0 if P.plain else P.r.randrange(4)
+        H = self.H
+        m = self.md(hm) if hm else None
+        try:
+            with warnings.catch_warnings():
+                warnings.simplefilter("ignore")
+                if not (hm or weighted) and v < 2:
+                    self.slots[i] = H()
+                elif v == 0:
+                    self.slots[i] = H(weighted=weighted, hypergraph_metadata=m)
+                elif v == 1:
+                    self.slots[i] = H(None, weighted, None, m)
+                elif v == 2:
+                    self.slots[i] = H(edge_list=None, weighted=weighted, weights=None, hypergraph_metadata=m,
+                                      node_metadata=None, edge_metadata=None)
                 else:
-                    raise ValueError(op)
+                    self.slots[i] = H(hypergraph_metadata=m, weighted=weighted) if m is not None else H(weighted=weighted)
             return True
         except AlarmTimeout:
             raise
         except Exception:
             return False
 
-    def new(self, i, weighted, hm):
-        try:
-            with warnings.catch_warnings():
-                warnings.simplefilter("ignore")
-                self.slots[i] = self.H(weighted=weighted, hypergraph_metadata=self.md(hm) if hm else None) \
-                    if (hm or weighted) else self.H()
-            return True
-        except AlarmTimeout:
-            raise
-        except Exception:
-            return False
-
-    def construct(self, i, weighted, hm, nmeta, es, ws, mds):
+    def prepare_ctor(self, c, P):
         """Hypergraph(edge_list=..., weighted=..., weights=..., hypergraph_metadata=..., node_metadata=..., edge_metadata=...)"""
-        try:
-            with warnings.catch_warnings():
-                warnings.simplefilter("ignore")
-                h = self.H(edge_list=[self.edge(e) for e in es] if es is not None else None, weighted=weighted,
-                           weights=None if ws is None else [self.wt(w, j) for j, w in enumerate(ws)],
-                           hypergraph_metadata=self.md(hm) if hm else None,
-                           node_metadata=None if nmeta is None else {self.lab(n): self.md(m) for n, m in nmeta.items()},
-                           edge_metadata=None if mds is None else [self.md(m) for m in mds])
+        _, i, weighted, hm, nmeta, es, ws, mds = c
+        H = self.H
+        order = es
+        el = None
+        if es is not None:
+            # the constructor tests `if edge_list:` and, for a weighted one with weights, len(edge_list): sized containers there
+            el, order = self.edges(es, P, hashable=ws is not None, ordered=ws is not None or mds is not None,
+                                   oneshot=bool(es) and not (weighted and ws is not None))   # (an empty iterator is true)
+            if isinstance(el, np.ndarray):      # `if edge_list:` on an array raises: not a container the constructor takes
+                el = [self.edge(e, P, kind="tuple") for e in order]
+        wl = None if ws is None else self.wlist(ws, P)
+        ml = None if mds is None else self.mdlist(mds, P)
+        m = self.md(hm) if hm else None
+        nm = None if nmeta is None else {self.lab(n, P): self.md(x) for n, x in nmeta.items()}
+        if nm is not None and not P.plain:
+            P.give(nm)
+        c2 = ("ctor", i, weighted, hm, nmeta, order, ws, mds)
+        v = 0 if P.plain else P.r.randrange(3)
+
+        def thunk():
+            if v == 0:
+                h = H(edge_list=el, weighted=weighted, weights=wl, hypergraph_metadata=m, node_metadata=nm, edge_metadata=ml)
+            elif v == 1:
+                h = H(el, weighted, wl, m, nm, ml)
+            else:
+                kw = {}
+                for k, x in (("edge_list", el), ("weights", wl), ("hypergraph_metadata", m), ("node_metadata", nm),
+                             ("edge_metadata", ml)):
+                    if x is not None:
+                        kw[k] = x
+                if weighted:
+                    kw["weighted"] = True
+                h = H(**kw)
             self.slots[i] = h
-            return True
-        except AlarmTimeout:
-            raise
-        except Exception:
-            return False
+        return c2, thunk
 
     def copy(self, i, j):
         try:
@@ -511,41 +976,99 @@ class Real:
 
     # queries --------------------------------------------------------------------------------
     @staticmethod
-    def _fkw(f, with_upto=True):
-        kw = {}
-        if f[0] is not None:
-            kw["order"] = f[0]
-        if f[1] is not None:
-            kw["size"] = f[1]
-        if with_upto and f[2]:
-            kw["up_to"] = True
-        return kw
+    def _fargs(name, f, P, with_upto=True):
+        """(positional, keyword) arguments for the filter f = (order, size, up_to) of query `name`"""
+        o, k, up = f[0], f[1], bool(f[2]) if with_upto else False
+        if not P.plain and P.r.random() < 0.1:
+            o = None if o is None else np.int64(o)
+            k = None if k is None else np.int64(k)
+        v = 0 if P.plain else P.r.randrange(4)
+        if v <= 1:                  # only what is set, by keyword
+            kw = {}
+            if o is not None:
+                kw["order"] = o
+            if k is not None:
+                kw["size"] = k
+            if with_upto and (up or v == 1):
+                kw["up_to"] = up
+            return (), kw
+        if v == 2:                  # everything, by keyword
+            kw = {"order": o, "size": k}
+            if with_upto:
+                kw["up_to"] = up
+            return (), kw
+        d = {"order": o, "size": k, "up_to": up}      # everything, by position
+        return tuple(d[p] for p in POS[name]), {}
 
-    def ask(self, i, q):
+    def ask(self, i, q, P=None):
         try:
-            return self._ask(self.slots[i], q)
+            return self._ask(self.slots[i], q, P or Pres(None, 0, ""))
         except AlarmTimeout:
             raise
         except Exception:
             return "rej"
 
-    def _ask(self, h, q):
+    def _mine(self, P, res, render, hold=True):
+        """the answer is rendered from the returned container `res`; then the caller uses `res` as HIS object: mostly he
+        overwrites it at once, sometimes he keeps it across the next mutating call (it must not change) and overwrites it then"""
+        s = render(res)
+        if hold and not P.plain and len(self.held) < 6 and P.r.random() < 0.04:   # (metadata dicts are shared by design)
+            self.held.append((res, render, s))
+        else:
+            scribble(res, self.junk)
+        return s
+
+    def check_held(self):
+        """None, or what is wrong with an answer that the caller kept while the hypergraph was mutated"""
+        bad = None
+        for res, render, s in self.held:
+            try:
+                s2 = render(res)
+            except AlarmTimeout:
+                raise
+            except Exception as ex:
+                s2 = f"exc {type(ex).__name__}"
+            if s2 != s and bad is None:
+                bad = f"an answer {s!r} (a {type(res).__name__}) kept by the caller reads {s2!r} after the next mutating call"
+            scribble(res, self.junk)
+        self.held = []
+        return bad
+
+    def _ask(self, h, q, P):
         from hypergraphx.measures.degree import degree, degree_sequence, degree_distribution
+        from hypergraphx.utils.cc import isolated_nodes, is_isolated
         name = q[0]
+        v = 0 if P.plain else P.r.randrange(3)
         if name == "nodes":
-            return r_list(self.rk(x) for x in h.get_nodes())
+            res = [h.get_nodes, lambda: h.get_nodes(False), lambda: h.get_nodes(metadata=False)][v]()
+            return self._mine(P, res, lambda res: r_list(self.rk(x) for x in res))
         if name == "nodesmeta":
-            return r_xmetas({self.rk(n): self.rmd(m) for n, m in h.get_nodes(metadata=True).items()}, str)
+            res = h.get_nodes(metadata=True) if v else h.get_nodes(True)
+            return self._mine(P, res, lambda res: r_xmetas({self.rk(n): self.rmd(m) for n, m in res.items()}, str), hold=False)
         if name == "checknode":
-            return r_bool(h.check_node(self.lab(q[1])))
+            n = self.lab(q[1], P)
+            return r_bool(h.check_node(n) if v else h.check_node(node=n))
         if name == "numnodes":
             return str(h.num_nodes())
-        if name == "edges":
-            return r_edges(self.redge(e) for e in h.get_edges(**self._fkw(q[1])))
-        if name == "edgesmeta":
-            return r_xmetas({self.redge(e): self.rmd(m) for e, m in h.get_edges(metadata=True, **self._fkw(q[1])).items()}, r_edge)
+        if name in ("edges", "edgesmeta"):
+            a, kw = self._fargs(name, q[1], P)
+            md = name == "edgesmeta"
+            if a:
+                res = h.get_edges(*a, False, False, True) if md else (h.get_edges(*a) if v else h.get_edges(*a, False, False, False))
+            else:
+                if md:
+                    kw["metadata"] = True
+                elif v == 2:
+                    kw["metadata"] = False
+                if v == 1:
+                    kw["subhypergraph"] = False
+                res = h.get_edges(**kw)
+            if md:
+                return self._mine(P, res, lambda res: r_xmetas({self.redge(e): self.rmd(m) for e, m in res.items()}, r_edge), hold=False)
+            return self._mine(P, res, lambda res: r_edges(self.redge(e) for e in res))
         if name == "numedges":
-            return str(h.num_edges(**self._fkw(q[1])))
+            a, kw = self._fargs(name, q[1], P)
+            return str(h.num_edges(*a, **kw))
         if name == "len":
             return str(len(h))
         if name == "iter":
@@ -555,35 +1078,61 @@ class Real:
                 return "?edge ids not distinct"
             return r_edges(self.redge(e) for e, _ in items)
         if name == "checkedge":
-            return r_bool(h.check_edge(self.edge(q[1])))
+            e = self.edge(q[1], P)
+            return r_bool(h.check_edge(e) if v else h.check_edge(edge=e))
         if name == "weight":
-            return str(self.rw(h.get_weight(self.edge(q[1]))))
-        if name == "weights":
-            return r_list(self.rw(w) for w in h.get_weights(**self._fkw(q[1])))
-        if name == "weightsdict":
-            return r_ews({self.redge(e): self.rw(w) for e, w in h.get_weights(asdict=True, **self._fkw(q[1])).items()})
+            e = self.edge(q[1], P)
+            return str(self.rw(h.get_weight(e) if v else h.get_weight(edge=e)))
+        if name in ("weights", "weightsdict"):
+            a, kw = self._fargs(name, q[1], P)
+            asd = name == "weightsdict"
+            if a:
+                res = h.get_weights(*a, asd) if (asd or v) else h.get_weights(*a)
+            else:
+                if asd:
+                    kw["asdict"] = True
+                elif v == 2:
+                    kw["asdict"] = False
+                res = h.get_weights(**kw)
+            if asd:
+                return self._mine(P, res, lambda res: r_ews({self.redge(e): self.rw(w) for e, w in res.items()}))
+            return self._mine(P, res, lambda res: r_list(self.rw(w) for w in res))
         if name == "incident":
-            return r_edges(self.redge(e) for e in h.get_incident_edges(self.lab(q[1]), **self._fkw(q[2], False)))
+            a, kw = self._fargs(name, q[2], P, False)
+            res = h.get_incident_edges(self.lab(q[1], P), *a, **kw)
+            return self._mine(P, res, lambda res: r_edges(self.redge(e) for e in res))
         if name == "neighbors":
-            return r_list(self.rk(x) for x in h.get_neighbors(self.lab(q[1]), **self._fkw(q[2], False)))
+            a, kw = self._fargs(name, q[2], P, False)
+            res = h.get_neighbors(self.lab(q[1], P), *a, **kw)
+            return self._mine(P, res, lambda res: r_list(self.rk(x) for x in res))
         if name == "degree":
-            a = degree(h, self.lab(q[1]), **self._fkw(q[2], False))
-            b = h.degree(self.lab(q[1]), **self._fkw(q[2], False))
-            return str(a) if a == b else f"?degree {a} vs method {b}"
+            a, kw = self._fargs(name, q[2], P, False)
+            x = degree(h, self.lab(q[1], P), *a, **kw)
+            y = h.degree(self.lab(q[1], P), *a, **kw)
+            return str(x) if x == y else f"?degree {x} vs method {y}"
         if name == "degreeseq":
-            a = degree_sequence(h, **self._fkw(q[1], False))
-            b = h.degree_sequence(**self._fkw(q[1], False))
-            return r_pairs({self.rk(n): d for n, d in a.items()}) if a == b else "?degree_sequence differs from method"
+            a, kw = self._fargs(name, q[1], P, False)
+            x = degree_sequence(h, *a, **kw)
+            y = h.degree_sequence(*a, **kw)
+            s = r_pairs({self.rk(n): d for n, d in x.items()}) if x == y else "?degree_sequence differs from method"
+            self._mine(P, x, lambda _: s)
+            return self._mine(P, y, lambda _: s)
         if name == "degreedist":
-            a = degree_distribution(h, **self._fkw(q[1], False))
-            b = h.degree_distribution(**self._fkw(q[1], False))
-            return r_pairs(a) if a == b else "?degree_distribution differs from method"
+            a, kw = self._fargs(name, q[1], P, False)
+            x = degree_distribution(h, *a, **kw)
+            y = h.degree_distribution(*a, **kw)
+            s = r_pairs(x) if x == y else "?degree_distribution differs from method"
+            self._mine(P, x, lambda _: s)
+            return self._mine(P, y, lambda _: s)
         if name == "sizes":
-            return r_list(h.get_sizes())
+            res = h.get_sizes()
+            return self._mine(P, res, lambda res: r_list(res))
         if name == "orders":
-            return r_list(h.get_orders())
+            res = h.get_orders()
+            return self._mine(P, res, lambda res: r_list(res))
         if name == "sizedist":
-            return r_pairs(h.distribution_sizes())
+            res = h.distribution_sizes()
+            return self._mine(P, res, lambda res: r_pairs(res))
         if name == "maxsize":
             return str(h.max_size())
         if name == "maxorder":
@@ -593,9 +1142,11 @@ class Real:
         if name == "isweighted":
             return r_bool(h.is_weighted())
         if name == "nodemeta":
-            return r_meta(self.rmd(h.get_node_metadata(self.lab(q[1]))))
+            n = self.lab(q[1], P)
+            return r_meta(self.rmd(h.get_node_metadata(n) if v else h.get_node_metadata(node=n)))
         if name == "edgemeta":
-            return r_meta(self.rmd(h.get_edge_metadata(self.edge(q[1]))))
+            e = self.edge(q[1], P)
+            return r_meta(self.rmd(h.get_edge_metadata(e) if v else h.get_edge_metadata(edge=e)))
         if name == "allnodesmeta":
             return r_xmetas({self.rk(n): self.rmd(m) for n, m in h.get_all_nodes_metadata().items()}, str)
         if name == "alledgesmeta":
@@ -608,9 +1159,18 @@ class Real:
         if name == "hmeta":
             return r_meta(self.rmd(h.get_hypergraph_metadata()))
         if name == "isolated":
-            return r_list(self.rk(x) for x in h.isolated_nodes(**self._fkw(q[1], False)))
+            a, kw = self._fargs(name, q[1], P, False)
+            if v == 0 and not a:
+                res = isolated_nodes(h, **kw)           # the function of utils/cc.py
+            else:
+                res = h.isolated_nodes(*a, **kw)
+            return self._mine(P, res, lambda res: r_list(self.rk(x) for x in res))
         if name == "isisolated":
-            return r_bool(h.is_isolated(self.lab(q[1]), **self._fkw(q[2], False)))
+            a, kw = self._fargs(name, q[2], P, False)
+            n = self.lab(q[1], P)
+            if v == 0 and not a:
+                return r_bool(is_isolated(h, n, **kw))
+            return r_bool(h.is_isolated(n, *a, **kw))
         raise ValueError(name)
 
     def str_ok(self, i):
@@ -791,8 +1351,25 @@ def light_queries(rng, n_nodes, pool):
 # ------------------------------------------------------------------------------------------------
 # generation
 
+BIG = ([0, 1] + list(range(257, 262)) + [300, 1000, 1001, 1002, 4096, 65535, 2 ** 61 - 1, 2 ** 61,   # hash(2**61-1) == hash(0)
+        2 ** 31 - 1, 2 ** 31, 2 ** 32 + 5, 2 ** 53 - 1, 2 ** 53,
+                                 2 ** 63 - 1, 2 ** 63, 2 ** 64 + 3, 10 ** 30, 10 ** 30 + 1])
+BIGNEG = ([-2, -1] + list(range(-12, -5)) + [-300,     # hash(-1) == hash(-2)
+          -1000, -1001, -2 ** 31 - 1, -2 ** 53 - 1, -2 ** 63, -2 ** 63 - 1, -10 ** 30]
+          + [0, 7, 300, 2 ** 40])
+MIXNUM = [float("-inf"), -1e300, -1000.75, -3.5, -1, -0.5, 0, 0.25, 1, 1.5, 2, 2.5, 3, 255.5, 257, 1000.75, 2 ** 60, 1.5e300,
+          float("inf")]
+STRLONG = (["node-%d" % i for i in range(12)] + ["n_%03d" % i for i in (1, 10, 100)] + ["v" * 30 + str(i) for i in range(3)]
+           + ["\u00e9l\u00e9ment-%d" % i for i in range(3)] + ["gene:BRCA%d" % i for i in (1, 2)] + ["ab", "abc", "a b", "A-1"])
+TUPLES = [(), (0,), (0, 0), (0, 1), (0, 1, 2), (1,), (1, 0), (1, 2), (2,), (2, 5, 1), (300, 1), (1000, -7), (-1, 4), (2 ** 40, 0)]
+TUPSTR = [(a, i) for a in ("a", "layer-1", "layer-2", "") for i in (0, 1, 2, 1000)]
+TUPNEST = [((a, b), c) for a in (0, 1) for b in (0, 2, 500) for c in (0, 1, 999)]
+
+
 def gen_labels(rng, n):
-    kind = rng.choice(["int", "shift", "neg", "str", "str2"])
+    """a universe of n mutually comparable labels in increasing order (rank = position)"""
+    kind = rng.choice(["int", "int", "shift", "neg", "big", "big", "bigneg", "mixnum", "str", "str2", "strlong", "strlong",
+                       "tuple", "tupstr", "tupnest"])
     if kind == "int":
         return kind, list(range(n))
     if kind == "shift":
@@ -801,7 +1378,11 @@ def gen_labels(rng, n):
         return kind, sorted(rng.sample(range(-20, 20), n))
     if kind == "str":
         return kind, sorted(rng.sample(["a", "b", "c", "d", "e", "f", "g", "h", "aa", "ab", "B", "Z"], n))
-    return kind, sorted(rng.sample(["n10", "n9", "n1", "x", "y", "E1", "E", "", " ", "10", "9"], n))
+    if kind == "str2":
+        return kind, sorted(rng.sample(["n10", "n9", "n1", "x", "y", "E1", "E", "", " ", "10", "9"], n))
+    pool = {"big": BIG, "bigneg": BIGNEG, "mixnum": MIXNUM, "strlong": STRLONG, "tuple": TUPLES, "tupstr": TUPSTR,
+            "tupnest": TUPNEST}[kind]
+    return kind, sorted(rng.sample(pool, n))
 
 
 def gen_meta(rng, allow_none=True):
@@ -904,9 +1485,14 @@ class Gen:
             ks = sorted(map(sorted, spec.edges))
             rng.shuffle(ks)
             es = [perm(rng, e) for e in ks[:rng.randint(0, 3)]]
-            if bad:
-                if es and rng.random() < 0.5:
-                    es.append(perm(rng, es[0]))
+            if bad or rng.random() < 0.2:      # batches are where validation lives: a quarter of them is malformed
+                if es and rng.random() < 0.6:
+                    # one member twice, spelled in another node order when it has one; anywhere in the batch
+                    j = max(range(len(es)), key=lambda t: (len(es[t]) >= 2, rng.random()))
+                    d = perm(rng, es[j])
+                    if len(d) >= 2 and d == es[j] and rng.random() < 0.8:
+                        d = d[1:] + d[:1]
+                    es.insert(rng.randint(0, len(es)), d)
                 else:
                     es.insert(rng.randint(0, len(es)), self.edge())
             return ("rmedges", es)
@@ -916,9 +1502,9 @@ class Gen:
             ns = sorted(spec.nodes)
             rng.shuffle(ns)
             ns = ns[:rng.randint(0, 3)]
-            if bad:
+            if bad or rng.random() < 0.15:
                 if ns and rng.random() < 0.5:
-                    ns.append(ns[0])
+                    ns.insert(rng.randint(0, len(ns)), rng.choice(ns))
                 else:
                     ns.insert(rng.randint(0, len(ns)), rng.randrange(self.n))
             return ("rmnodes", ns, rng.random() < 0.5)
@@ -1058,14 +1644,26 @@ class Problem(Exception):
         self.kind, self.what, self.step = kind, what, step
 
 
+def digest_queries(n_nodes):
+    """asked again after the answers of a round were handed to the caller (who empties / overwrites the returned containers)"""
+    f0 = (None, None, False)
+    qs = [(p,) for p in PLAIN]
+    qs += [("edges", f0), ("edgesmeta", f0), ("weights", f0), ("weightsdict", f0), ("numedges", f0), ("degreeseq", f0),
+           ("degreedist", f0), ("isolated", f0)]
+    for n in range(n_nodes):
+        qs += [("checknode", n), ("incident", n, f0), ("neighbors", n, f0), ("degree", n, f0)]
+    return qs
+
+
 def run_history(case, drv, rng, stats=None, full_every=False, small=False):
     """Runs the commands of `case` on REAL, ORACLE and MODEL.  Raises Problem at the first difference.
     Returns facts about the history (for the non-triviality rule)."""
-    labels, cmds, n, pool = case["labels"], case["cmds"], len(case["labels"]), [tuple(e) for e in case["pool"]]
-    real = Real(labels)
+    labels = [dec_label(x) for x in case["labels"]]
+    cmds, n, pool = case["cmds"], len(labels), [tuple(e) for e in case["pool"]]
+    real = Real(labels, case.get("pres"))
     specs = [PySpec() for _ in range(NSLOT)]
     lines, expect = ["reset %d" % NSLOT], [("ctl", "ok", None)]
-    facts = {"removal": False, "reinsertion": False, "rejected": 0, "accepted": 0, "merge": False}
+    facts = {"removal": False, "reinsertion": False, "rejected": 0, "accepted": 0, "merge": False, "fresh_shrink": False}
     ever = [set(), set()]
 
     def flush(step):
@@ -1082,14 +1680,17 @@ def run_history(case, drv, rng, stats=None, full_every=False, small=False):
         lines.clear(); expect.clear()
 
     def queries(i, qs, step):
-        for q in qs:
-            kind = KIND[q[0]]
-            r = norm(kind, real.ask(i, q))
-            o = norm(kind, specs[i].ask(q))
-            if r != o:
-                raise Problem("violation", f"after step {step} query {q_line(i, q)!r}: implementation answers {r!r}, "
-                                           f"the abstract hypergraph of the history gives {o!r}", step)
-            lines.append(q_line(i, q)); expect.append(("q", r, q[0]))
+        for rnd, batch in ((0, qs), (1, digest_queries(n) if real.pres is not None else [])):
+            for q in batch:
+                kind = KIND[q[0]]
+                ql = q_line(i, q)
+                r = norm(kind, real.ask(i, q, real.P(step, f"{rnd}{ql}")))
+                o = norm(kind, specs[i].ask(q))
+                if r != o:
+                    raise Problem("violation", f"after step {step} query {ql!r}{' (asked again after the caller overwrote the containers returned by the queries before)' if rnd else ''}: "
+                                               f"implementation answers {r!r}, the abstract hypergraph of the history gives {o!r}", step)
+                if rnd == 0:
+                    lines.append(ql); expect.append(("q", r, q[0]))
         # filter laws on the implementation itself: size=k is order=k-1
         if not real.str_ok(i):
             raise Problem("violation", f"after step {step}: str() does not report num_nodes/num_edges/distribution_sizes", step)
@@ -1099,12 +1700,17 @@ def run_history(case, drv, rng, stats=None, full_every=False, small=False):
         touched = None
         if c[0] == "on":
             _, i, op = c
+            P = real.P(step, "op" + repr((i, op)))
+            op, thunk = real.prepare(i, op, P)     # the operation in the order its containers list it
             before = [copy.deepcopy(specs[i].digest())]
             if op[0] in ("addedge", "addedges"):
                 es = [op[1]] if op[0] == "addedge" else op[1]
                 if any(frozenset(e) in ever[i] for e in es if i < 2):
                     facts["reinsertion_try"] = True
-            r_ok = real.do(i, op)
+            r_ok = real.call(thunk, P)
+            kept = real.check_held()
+            if kept:
+                raise Problem("violation", f"step {step} {op_line(i, op)!r}: {kept}", step)
             o_ok = specs[i].do(op)
             lines.append(op_line(i, op)); expect.append(("ctl", "ok" if r_ok else "rej", None))
             if r_ok != o_ok:
@@ -1123,6 +1729,9 @@ def run_history(case, drv, rng, stats=None, full_every=False, small=False):
                     # shrink-merge: fewer hyperedges lost than the removed node(s) would account for is hard to see;
                     # record when a kept hyperedge met an existing one
                     facts["merge"] = facts["merge"] or (len(specs[i].edges) < len(before[0][2]))
+                    gone = {op[1]} if op[0] == "rmnode" else set(op[1])
+                    if real.pres is not None and any(len(k) > 1 and gone & set(k) for k, _ in before[0][2]):
+                        facts["fresh_shrink"] = True
                 if i < 2:
                     ever[i] |= set(specs[i].edges)
             else:
@@ -1131,12 +1740,18 @@ def run_history(case, drv, rng, stats=None, full_every=False, small=False):
             touched = i
             if small:
                 qs = medium_queries(n, pool) if not r_ok else []
+            elif full_every:
+                qs = full_queries(n, pool)
             else:
-                qs = full_queries(n, pool) if (not r_ok or full_every) else light_queries(rng, n, pool)
+                qs = light_queries(rng, n, pool)
+                if not r_ok:       # the whole observable state (every filtered answer is a view of it; full sweep at the end)
+                    f0 = (None, None, False)
+                    qs += [(name, x, f0) for x in range(n) for name in NODE_F]
+                    qs += [(name, tuple(e)) for e in pool for name in ("checkedge", "weight", "edgemeta")]
             queries(i, qs, step)   # after a rejected call the oracle state is the state before: full comparison
         elif c[0] == "new":
             _, i, w, hm = c
-            ok = real.new(i, w, hm)
+            ok = real.new(i, w, hm, real.P(step, repr(c)))
             specs[i] = PySpec(w, hm)
             if i < 2:
                 ever[i] = set()
@@ -1157,7 +1772,9 @@ def run_history(case, drv, rng, stats=None, full_every=False, small=False):
             queries(i, light_queries(rng, n, pool), step)
         elif c[0] == "ctor":
             i = c[1]
-            ok = real.construct(i, *c[2:])
+            P = real.P(step, repr(c))
+            c, thunk = real.prepare_ctor(c, P)
+            ok = real.call(thunk, P)
             s = ctor_spec(c)
             if ok != (s is not None):
                 raise Problem("violation", f"step {step}: constructor {'returned' if ok else 'raised'} but the same calls on "
@@ -1209,7 +1826,7 @@ def check_history(ctx, drv, case, rng, stats, full_every=False, record=True, sma
     if record and facts is not None:
         key = repr((case["n"], case["cmds"]))
         ctx.case(key, facts["removal"] and facts["reinsertion"], sample=case)
-        for k in ("removal", "reinsertion", "merge"):
+        for k in ("removal", "reinsertion", "merge", "fresh_shrink"):
             if facts[k]:
                 ctx.count("histories_with_" + k)
         ctx.count("histories_with_rejection", 1 if facts["rejected"] else 0)
@@ -1270,7 +1887,8 @@ def gen_case(rng, max_len=40):
             s = ctor_spec(c)
             if s is not None:
                 specs[c[1]] = s
-    return {"n": g.n, "kind": g.kind, "labels": g.labels, "pool": [list(e) for e in g.pool], "cmds": cmds}
+    return {"n": g.n, "kind": g.kind, "labels": [enc_label(x) for x in g.labels], "pres": rng.getrandbits(31) | 1,
+            "pool": [list(e) for e in g.pool], "cmds": cmds}
 
 
 def alphabet3():
@@ -1289,6 +1907,8 @@ def alphabet3():
 def run(ctx):
     try:
         Real([0, 1]).do(0, ("addedge", (0, 1), None, None))
+        from hypergraphx.measures.degree import degree  # noqa: F401
+        from hypergraphx.utils.cc import isolated_nodes  # noqa: F401
     except Exception as ex:   # a tree that cannot even be imported contradicts every clause of the property
         ctx.violation({"labels": [0, 1], "cmds": [], "pool": [], "n": 2, "kind": "int"},
                       f"hypergraphx.Hypergraph cannot be imported / constructed: {type(ex).__name__}: {ex}")
@@ -1310,11 +1930,14 @@ def run(ctx):
             break
     if ctx.tier == "thorough" and not ctx.too_many(1):
         A = alphabet3()
+        nexh = 0
         for w, lengths in ((False, (1, 2, 3)), (True, (1, 2))):
             for L in lengths:
                 for ops in itertools.product(A, repeat=L):
                     cmds = ([("new", 0, True, {})] if w else []) + [("on", 0, o) for o in ops]
-                    case = {"n": 3, "kind": "int", "labels": [0, 1, 2], "pool": [[0, 1], [0, 1, 2], [1, 2], [1], []], "cmds": cmds}
+                    case = {"n": 3, "kind": "int", "labels": [0, 1, 2] if nexh % 3 else [5, 300, 2 ** 40],
+                            "pres": 2 * nexh + 1, "pool": [[0, 1], [0, 1, 2], [1, 2], [1], []], "cmds": cmds}
+                    nexh += 1
                     prob = check_history(ctx, drv, case, rng, None, small=True)
                     ctx.count("exhaustive_short_histories")
                     if prob is not None:
